@@ -44,6 +44,30 @@ var costFamilies = []costFamily{
 	{"tabs and newlines", func(n int) (string, string) { return "", "http://h/" + rep("a\t\n", n) }},
 	{"ipv6 zeros", func(n int) (string, string) { return "", "http://[" + rep("0", n) + "::]/" }},
 	{"ipv4 parts", func(n int) (string, string) { return "", "http://" + rep("1.", n) + "1/" }},
+	{"long IDN label", func(n int) (string, string) { return "", "http://" + rep("é", n) + ".b/" }},
+	{"many IDN labels", func(n int) (string, string) { return "", "http://" + rep("é.", n) + "b/" }},
+	{"IDN label over a wide code point range", func(n int) (string, string) { return "", "http://" + wideLabel(n) + ".b/" }},
+}
+
+// wideLabel: about n bytes of distinct letters spread over several scripts (punycode deltas as large as they get)
+func wideLabel(n int) string {
+	var sb strings.Builder
+	starts := []rune{0x3b1, 0x430, 0x5d0, 0x4e00, 0xac00, 0x20000}
+	for i := 0; sb.Len() < n; i++ {
+		sb.WriteRune(starts[i%len(starts)] + rune(i/len(starts))%5000)
+	}
+	return sb.String()
+}
+
+// usizeOf: the size measure of Proofs/SizeBound.v (bytes of all components plus one per path segment) on an implementation result
+func usizeOf(u *url.Url) int {
+	n := len(u.Scheme()) + len(u.Username()) + len(u.Password()) + len(u.Hostname()) + len(u.Port()) + len(u.Query()) + len(u.Fragment())
+	if u.OpaquePath() {
+		n += len(u.Pathname()) + 1
+	} else {
+		n += len(u.Pathname()) // one '/' per segment is already in the pathname
+	}
+	return n
 }
 
 // measure allocation (bytes, objects) of parse + serialize + every getter + search parameters
@@ -115,6 +139,64 @@ func init() {
 				}
 			}
 			c.samples = c.samples[:min(len(c.samples), 12)]
+			// the size theorems of Properties/C20.v: (1) their premise on the IDNA oracle (output linear in the input: A = 8, B = 8)
+			// is tested on the real library on hostile labels; (2) their conclusion is evaluated on the implementation's results;
+			// (3) the model the theorems are about is compared with the implementation on every family at n = 1Ki
+			const hA, hB = 8, 8
+			maxRatio := 0.0
+			for _, n := range ns {
+				for _, lab := range []string{rep("é", n), rep("é.", n), wideLabel(n), rep("a", n), rep("xn--a.", n), rep("\xff", n), rep("aé", n) + "." + wideLabel(n/2)} {
+					out, _ := url.VerifIdnaRaw(lab)
+					if r := float64(len(out)) / float64(len(lab)+1); r > maxRatio {
+						maxRatio = r
+					}
+					if len(out) > hA*len(lab)+hB {
+						c.Report(Finding{Class: "obligation", What: fmt.Sprintf("premise of the C20 size theorems (IDNA output at most %d x input + %d bytes) fails on the real library: %d bytes in, %d bytes out", hA, hB, len(lab), len(out)),
+							Case: Case{Kind: "oracle", Family: "idna-linearity", Input: lab}})
+					}
+				}
+			}
+			c.Note(fmt.Sprintf("IDNA output/input length ratio on hostile labels: at most %.2f (premise of the size theorems tested with A=%d, B=%d)", maxRatio, hA, hB))
+			dp := url.NewParser()
+			for _, f := range costFamilies {
+				for _, n := range ns {
+					b, in := f.gen(n)
+					var u *url.Url
+					var err error
+					bsize := 0
+					if b == "" {
+						u, err = dp.Parse(in)
+					} else {
+						var bu *url.Url
+						if bu, err = dp.Parse(b); err == nil {
+							bsize = usizeOf(bu)
+							u, err = bu.Parse(in)
+						}
+					}
+					if err != nil || u == nil {
+						continue
+					}
+					// C20_parse_size / C20_resolve_size with A = 8, B = 8; C20_href_size
+					bound := 144*(hA+1)*len(in) + bsize + 276*(hA+1) + 12*hB + 46
+					if us := usizeOf(u); us > bound {
+						c.Report(Finding{Class: "violation", What: fmt.Sprintf("family %q, n=%d: the result has size %d, above the proved bound %d", f.name, n, us, bound),
+							Case: Case{Kind: "cost", Family: f.name, Input: fmt.Sprintf("n=%d", n)}})
+					}
+					if h := len(u.Href(false)); h > usizeOf(u)+8 {
+						c.Report(Finding{Class: "violation", What: fmt.Sprintf("family %q, n=%d: serialization has %d bytes, components %d (+8)", f.name, n, h, usizeOf(u)),
+							Case: Case{Kind: "cost", Family: f.name, Input: fmt.Sprintf("n=%d", n)}})
+					}
+				}
+			}
+			c.Pool.Run(len(costFamilies), func(d *Driver, i int) {
+				f := costFamilies[i]
+				b, in := f.gen(1024)
+				var bp *string
+				if b != "" {
+					bp = &b
+				}
+				c.cmpParse(d, defaultCfg, bp, in, allFields, true, "cost-family:"+f.name, i)
+			})
 		},
 		rule: "26 repetition families (those of the property plus backslashes, encoded dot segments, deep relative resolution, invalid UTF-8, drive letters, tab/newline, IPv6/IPv4 digits) x n in {1Ki, 4Ki, 16Ki} (quick) up to 64Ki (thorough) x {default parser, GoogleSafeBrowsing, Semantic}; runtime.MemStats TotalAlloc and Mallocs around parse + every getter + String + SearchParams, minimum of 3 runs, GC disabled; violation when bytes or objects grow by more than 6x between n and 4n; distinct = (parser, family, n)",
 		trusted: []string{"runtime.MemStats as the measure of allocation; wall-clock time is not measured"},
